@@ -283,9 +283,19 @@ def check(ck):
     fw = prog.func(TP, "EventData.wait")
     gw = cfg_of(fw)
     rz = [n for n in gw.live_nodes() if n.kind == "raise"]
-    okk = len(rz) == 1 and dump(rz[0].ast.exc) == "self." + EF["exception"]
+    # (a local bound once to the stored exception - read once, then tested and raised - stands for the field)
+    al_ = set()
+    for st_ in ast.walk(fw.node):
+        if isinstance(st_, ast.Assign) and len(st_.targets) == 1 and isinstance(st_.targets[0], ast.Name) and dump(st_.value) == "self." + EF["exception"]:
+            nm_ = st_.targets[0].id
+            if sum(1 for x_ in ast.walk(fw.node) if isinstance(x_, ast.Name) and x_.id == nm_ and isinstance(x_.ctx, ast.Store)) == 1:
+                al_.add(nm_)
+
+    def _names_exc(e_):
+        return EF["exception"] in dump(e_) or any(isinstance(x_, ast.Name) and x_.id in al_ for x_ in ast.walk(e_))
+    okk = len(rz) == 1 and (dump(rz[0].ast.exc) == "self." + EF["exception"] or (isinstance(rz[0].ast.exc, ast.Name) and rz[0].ast.exc.id in al_))
     for rz_ in rz[:1]:
-        gds_ = [(t_, p_) for (t_, p_) in q.guards_of(gw, rz_) if EF["exception"] in dump(t_)]
+        gds_ = [(t_, p_) for (t_, p_) in q.guards_of(gw, rz_) if _names_exc(t_)]
         ident = bool(gds_) and all(isinstance(t_, ast.Compare) and len(t_.ops) == 1 and isinstance(t_.ops[0], (ast.Is, ast.IsNot)) and
                                    isinstance(t_.comparators[0], ast.Constant) and t_.comparators[0].value is None for (t_, _p) in gds_)
         ck.require(ident, "C09.3", "%s: failure decided by `is None`" % q.fn(fw), "identity test of the stored exception with None",
@@ -293,7 +303,7 @@ def check(ck):
                    "falsy (defines __bool__ / __len__) is not re-raised, the failed task reports a result" % [dump(t_) for (t_, _p) in gds_], q.loc(fw, rz_))
     # no exit of wait() avoids that test: a fast path returning before it reports a failed task as a plain result
     dw_ = dominators(gw)
-    exc_tests = [n for n in gw.live_nodes() if n.kind in ("branch", "test") and EF["exception"] in dump(n.test if n.kind == "branch" else n.ast)]
+    exc_tests = [n for n in gw.live_nodes() if n.kind in ("branch", "test") and _names_exc(n.test if n.kind == "branch" else n.ast)]
     for rn_ in [n for n in gw.live_nodes() if n.kind == "return"]:
         v_ = rn_.ast.value if rn_.ast is not None else None
         const_false = isinstance(v_, ast.Constant) and v_.value in (False, None)
